@@ -1155,3 +1155,127 @@ Proof.
 Qed.
 Lemma eff_mask_some h z d : eff_mask h (Some z) d = Z.to_N z.
 Proof. reflexivity. Qed.
+
+(* ------------------------------------------------------------------ *)
+(* the same statements phrased with the model's own lookup tables       *)
+Lemma tables_inv v abs ml : version_supported v = true ->
+  algo_block_size v = Ok abs -> key_block_mac_len v = Ok ml ->
+  abs = version_abs v /\ ml = version_maclen v.
+Proof.
+  intros Hv Ha Hm. destruct (version_tables v Hv) as (Ea & Em & _).
+  rewrite Ea in Ha. rewrite Em in Hm. injection Ha as <-. injection Hm as <-. auto.
+Qed.
+
+Section Statements.
+  Variables cd ca : cipher.
+  Hypothesis Hcs : ciphers_ok cd ca.
+
+  Theorem wrap_framing_tables kbpk h key mask tape s abs ml :
+    header_ok h -> bytes_ok key = true -> bytes_ok tape = true ->
+    algo_block_size (version_id h) = Ok abs -> key_block_mac_len (version_id h) = Ok ml ->
+    kb_wrap cd ca kbpk h key mask tape = Ok s ->
+    ascii_printable s = true /\ lenN s <= 9999 /\
+    slice 1 4 s = zfill 4 (str_of_N (lenN s)) /\ (length s mod abs = 0)%nat /\
+    exists n t ek mac,
+      blocks_dump abs (blocks h) = Ok (n, t) /\
+      slice 12 2 s = zfill 2 (str_of_N (N.of_nat n)) /\ (n <= 99)%nat /\
+      (n = length (blocks h) \/ n = S (length (blocks h))) /\
+      ((16 + length t) mod abs = 0)%nat /\
+      s = header_text h (lenN s) n t ++ hex_upper ek ++ hex_upper mac /\
+      length mac = ml /\
+      (length ek mod abs = 0)%nat /\ (abs <= length ek)%nat /\
+      bytes_ok ek = true /\ bytes_ok mac = true /\
+      forallb is_upper_hex (hex_upper ek ++ hex_upper mac) = true.
+  Proof.
+    intros Hok Bk Bt Ha Hm Hs. pose proof Hok as (Hv & _).
+    destruct (tables_inv _ _ _ Hv Ha Hm) as [-> ->].
+    exact (wrap_framing cd ca Hcs kbpk h key mask tape s Hok Bk Bt Hs).
+  Qed.
+
+  Theorem wrap_length_tables kbpk h key mask tape s abs ml n t :
+    header_ok h -> bytes_ok key = true -> bytes_ok tape = true ->
+    algo_block_size (version_id h) = Ok abs -> key_block_mac_len (version_id h) = Ok ml ->
+    kb_wrap cd ca kbpk h key mask tape = Ok s ->
+    blocks_dump abs (blocks h) = Ok (n, t) ->
+    let m := masked_len h key mask in
+    let padlen := N.of_nat abs - (2 + m) mod N.of_nat abs in
+    lenN s = 16 + lenN t + 2 * (2 + m + padlen) + 2 * N.of_nat ml.
+  Proof.
+    intros Hok Bk Bt Ha Hm Hs Hd. pose proof Hok as (Hv & _).
+    destruct (tables_inv _ _ _ Hv Ha Hm) as [-> ->].
+    exact (wrap_length cd ca Hcs kbpk h key mask tape s n t Hok Bk Bt Hs Hd).
+  Qed.
+
+  Theorem wrap_enc_bounds_tables kbpk h key mask tape s abs ml :
+    header_ok h -> bytes_ok key = true -> bytes_ok tape = true ->
+    algo_block_size (version_id h) = Ok abs -> key_block_mac_len (version_id h) = Ok ml ->
+    kb_wrap cd ca kbpk h key mask tape = Ok s ->
+    let m := masked_len h key mask in
+    exists n t ek mac,
+      blocks_dump abs (blocks h) = Ok (n, t) /\
+      s = header_text h (lenN s) n t ++ hex_upper ek ++ hex_upper mac /\
+      length mac = ml /\
+      2 + m < lenN ek /\ lenN ek <= 2 + m + N.of_nat abs /\ lenN key <= m.
+  Proof.
+    intros Hok Bk Bt Ha Hm Hs. pose proof Hok as (Hv & _).
+    destruct (tables_inv _ _ _ Hv Ha Hm) as [-> ->].
+    exact (wrap_enc_bounds cd ca Hcs kbpk h key mask tape s Hok Bk Bt Hs).
+  Qed.
+
+  Theorem wrap_tape_len_tables kbpk h key mask tape s abs :
+    header_ok h -> bytes_ok key = true -> bytes_ok tape = true ->
+    algo_block_size (version_id h) = Ok abs ->
+    kb_wrap cd ca kbpk h key mask tape = Ok s ->
+    let m := masked_len h key mask in
+    let padlen := N.of_nat abs - (2 + m) mod N.of_nat abs in
+    lenN tape = padlen + (m - lenN key).
+  Proof.
+    intros Hok Bk Bt Ha Hs. pose proof Hok as (Hv & _).
+    destruct (version_tables _ Hv) as (Ea & _ & _). rewrite Ea in Ha. injection Ha as <-.
+    exact (wrap_tape_len cd ca Hcs kbpk h key mask tape s Hok Bk Bt Hs).
+  Qed.
+End Statements.
+
+Theorem header_str_load_tables h t : header_ok h -> header_str h = Ok t -> lenN t <= 9999 ->
+  (forall st, header_load st t = (h, Ok (length t))) /\
+  (forall st rest, header_load st (t ++ rest) = (h, Ok (length t))) /\
+  exists abs n bt, algo_block_size (version_id h) = Ok abs /\
+    blocks_dump abs (blocks h) = Ok (n, bt) /\ t = header_text h (16 + lenN bt) n bt.
+Proof.
+  intros Hok Ht Hl. split; [|split].
+  - intros st. pose proof (header_str_load h t Hok Ht Hl st []) as E. rewrite app_nil_r in E. exact E.
+  - apply header_str_load; assumption.
+  - pose proof Hok as (Hv & _). destruct (header_str_ok h t Hv Ht) as (n & bt & Hd & E).
+    destruct (version_tables _ Hv) as (Ea & _ & _). eauto 10.
+Qed.
+
+Theorem header_dump_load_tables h kl t : header_ok h -> header_dump h kl = Ok t ->
+  (forall st, header_load st t = (h, Ok (length t))) /\
+  (forall st rest, header_load st (t ++ rest) = (h, Ok (length t))).
+Proof.
+  intros Hok Ht. split.
+  - intros st. pose proof (header_dump_load h kl t Hok Ht st []) as E. rewrite app_nil_r in E. exact E.
+  - apply (header_dump_load h kl); assumption.
+Qed.
+
+Theorem blocks_roundtrip_tables abs d n t : (abs = 8 \/ abs = 16)%nat ->
+  Forall block_entry_ok d -> NoDup (map fst d) -> blocks_dump abs d = Ok (n, t) ->
+  (forall rest, blocks_load n (t ++ rest) = (d, Ok (length t))) /\
+  (length t mod abs = 0)%nat /\ (n <= 99)%nat /\ ascii_printable t = true.
+Proof.
+  intros Habs Hok Hnd Hd. split; [|split; [|split]].
+  - intros rest. apply (blocks_dump_load abs); assumption.
+  - destruct (blocks_dump_shape abs d n t Habs Hd) as (_ & _ & _ & Hm & _). exact Hm.
+  - destruct (blocks_dump_shape abs d n t Habs Hd) as (_ & _ & Hn & _). exact Hn.
+  - apply (blocks_dump_printable abs d n t); assumption.
+Qed.
+
+(* ------------------------------------------------------------------ *)
+(* the toy ciphers satisfy [ciphers_ok]: the theorems above are not vacuous *)
+From Psec Require Import Cipher.Toy Proofs.TdesLemmas.
+Lemma toy_ciphers_ok : ciphers_ok toy_tdes toy_aes.
+Proof.
+  constructor; try reflexivity.
+  - apply tdes_ok, toy_des_ok.
+  - apply toy_aes_ok.
+Qed.
